@@ -857,7 +857,15 @@ func (env *SpecEnv) call(x *SExpr) (sval, error) {
 		// syntactically, the method value x.name of some x (a state function
 		// handing over to the next one)
 		if len(args) == 1 && args[0].Op == "str" && env.retInstr != nil && len(env.retInstr.Results) > 0 {
-			if mc, ok := env.retInstr.Results[0].(*ssa.MakeClosure); ok {
+			rv := env.retInstr.Results[0]
+			for {
+				ct, ok := rv.(*ssa.ChangeType) // conversion to the named func type
+				if !ok {
+					break
+				}
+				rv = ct.X
+			}
+			if mc, ok := rv.(*ssa.MakeClosure); ok {
 				if fn, ok := mc.Fn.(*ssa.Function); ok {
 					if tgt := boundMethodTarget(fn); tgt != nil && tgt.Name() == args[0].Name {
 						return sval{tTrue, types.Typ[types.Bool]}, nil
